@@ -235,12 +235,8 @@ NATIVE = c01.NATIVE
 
 
 # ------------------------------------------------------------------------------------------------ bounded scaling probe
-def extra_scaling_probe(eng, tier, seed):
-    """Bounded, native, not counted: the analytic queries named by the property on real types whose capacities / extents
-    are astronomically large must return within a fixed time limit, like the same shapes with small capacities do.
-    (The deductive obligations above are what decides C16; this probe gives a concrete failing input for replay.)"""
-    import signal
-    import time as _time
+def _scaling_cases(tier):
+    """(label, constructor) pairs of the scaling probe - real types whose capacities / extents are astronomically large"""
     from pydsdl import _serializable as S
     from pathlib import Path
 
@@ -266,54 +262,119 @@ def extra_scaling_probe(eng, tier, seed):
         yield "struct{12 x uintN[<=K] (N = 3, 1, 5, 7 ...)}[<=3]", lambda: S.VariableLengthArrayType(
             struct("Wide", *[S.VariableLengthArrayType(u((3, 1, 5, 7)[i % 4]), K) for i in range(12)]), 3)
 
-    def queries(t):
-        b = t.bit_length_set
-        out = [b.min, b.max, b.fixed_length, b.is_aligned_at_byte(), b.is_aligned_at(32)]  # the divisors the property names: 8 and 32
-        out.append(frozenset(b % 32))
-        out.append(b == t.bit_length_set)
-        out.append(hash(b))
-        out.append(t == t)
-        out.append(hash(t))
-        if isinstance(t, S.CompositeType):
-            out.append(t.extent)
-            for f, off in t.iterate_fields_with_offsets():
-                out.append(off.is_aligned_at_byte())
-        return out
-
-    class _TO(Exception):
-        pass
-
-    def _alarm(sig, frm):
-        raise _TO()
-
-    limit = 10
-    violations, checked, slowest = [], 0, 0.0
     caps = [3, 2 ** 24 + 1, 2 ** 40, 2 ** 63] if tier == "quick" else [3, 255, 2 ** 16 + 1, 2 ** 24 + 1, 2 ** 32, 2 ** 40, 2 ** 63 - 1, 2 ** 63]
     # nested variable-length composites with moderate capacities (no capacity is huge, the product of the sizes is)
     nested = lambda J, K: S.VariableLengthArrayType(struct("N", S.VariableLengthArrayType(u(8), J)), K)
     cases = [("%s with K=%d" % (nm, K), mk) for K in caps for nm, mk in shapes(K)]
     cases += [("{uint8[<=%d]}[<=%d]" % (J, K), (lambda J=J, K=K: nested(J, K))) for J, K in ((8, 32), (16, 16), (40, 60))]
-    for label, mk in cases:
-        old = signal.signal(signal.SIGALRM, _alarm)
-        signal.alarm(limit)
+    return cases
+
+
+def _scaling_queries(t):
+    from pydsdl import _serializable as S
+
+    b = t.bit_length_set
+    out = [b.min, b.max, b.fixed_length, b.is_aligned_at_byte(), b.is_aligned_at(32)]  # the divisors the property names: 8 and 32
+    out.append(frozenset(b % 32))
+    out.append(b == t.bit_length_set)
+    out.append(hash(b))
+    out.append(t == t)
+    out.append(hash(t))
+    if isinstance(t, S.CompositeType):
+        out.append(t.extent)
+        for f, off in t.iterate_fields_with_offsets():
+            out.append(off.is_aligned_at_byte())
+    return out
+
+
+def _scaling_child(tier):
+    """runs in a child process: one progress line before and after every case (the parent enforces the time limit)"""
+    import sys
+    import time as _time
+
+    for i, (label, mk) in enumerate(_scaling_cases(tier)):
+        sys.stdout.write("START %d\n" % i)
+        sys.stdout.flush()
         t0 = _time.time()
         try:
-            queries(mk())
-            checked += 1
-        except _TO:
-            violations.append({"name": "C16/native#analytic-queries-within-time-limit", "concrete": {"type": label},
-                               "detail": "min/max/alignment/equality/hash/extent/offset queries did not finish within %d s" % limit})
+            _scaling_queries(mk())
+            sys.stdout.write("DONE %d %.3f\n" % (i, _time.time() - t0))
         except MemoryError:
-            violations.append({"name": "C16/native#analytic-queries-within-time-limit", "concrete": {"type": label},
-                               "detail": "MemoryError"})
-        finally:
-            signal.alarm(0)
-            signal.signal(signal.SIGALRM, old)
-        slowest = max(slowest, _time.time() - t0)
-        if violations:
-            break
-    return {"check": "analytic queries on types with huge capacities finish within %d s (bounded, native)" % limit,
+            sys.stdout.write("MEMORY %d\n" % i)
+        sys.stdout.flush()
+
+
+def extra_scaling_probe(eng, tier, seed):
+    """Bounded, native, not counted: the analytic queries named by the property on real types whose capacities / extents
+    are astronomically large must return within a fixed time limit, like the same shapes with small capacities do.
+    (The deductive obligations above are what decides C16; this probe gives a concrete failing input for replay.)
+    The queries run in a CHILD PROCESS that is killed when a case exceeds the limit: a residue computation stuck inside one
+    C-level loop (set(map(sum, itertools.product(...)))) cannot be interrupted by a signal handler."""
+    import select
+    import subprocess
+    import sys
+    import time as _time
+
+    limit = 10
+    labels = [lb for lb, _ in _scaling_cases(tier)]
+    violations, checked, slowest = [], 0, 0.0
+    root = _os.path.dirname(_os.path.dirname(_os.path.abspath(__file__)))
+    env = dict(_os.environ)
+    p = subprocess.Popen([sys.executable, "-c", "import sys; sys.path.insert(0, %r); from specs import c16; c16._scaling_child(%r)"
+                          % (root, tier)], stdout=subprocess.PIPE, stderr=subprocess.DEVNULL, text=True, env=env, cwd=root)
+    current, started = None, _time.time()
+    try:
+        while True:
+            budget = (limit if current is not None else 120) - (_time.time() - started)  # 120 s to import and start
+            if budget <= 0:
+                break
+            r, _, _ = select.select([p.stdout], [], [], budget)
+            if not r:
+                break
+            line = p.stdout.readline()
+            if not line:
+                current = None if p.wait() == 0 else current
+                break
+            w = line.split()
+            if w[0] == "START":
+                current, started = int(w[1]), _time.time()
+            elif w[0] == "DONE":
+                checked += 1
+                slowest = max(slowest, float(w[2]))
+                current, started = None, _time.time()
+            elif w[0] == "MEMORY":
+                violations.append({"name": "C16/native#analytic-queries-within-time-limit",
+                                   "concrete": {"type": labels[int(w[1])]}, "detail": "MemoryError"})
+                current, started = None, _time.time()
+    finally:
+        if p.poll() is None:
+            p.kill()
+            p.wait()
+    if current is not None:
+        violations.append({"name": "C16/native#analytic-queries-within-time-limit", "concrete": {"type": labels[current]},
+                           "detail": "min/max/alignment/equality/hash/extent/offset queries did not finish within %d s" % limit})
+    elif checked < len(labels) and not violations:
+        raise RuntimeError("the scaling probe's child process ended after %d of %d cases" % (checked, len(labels)))
+    if violations:
+        # the violation is established (concrete type, replayable).  Should the native cross-check that follows get stuck in
+        # the same uninterruptible computation, its watchdog ends the run with this verdict instead of `undecided`.
+        import json
+        from pyvc import native as _native
+
+        rp = _os.path.join(root, "replays", "C16-C16_native_analytic-queries-within-time-limit.json")
+        try:
+            _os.makedirs(_os.path.dirname(rp), exist_ok=True)
+            json.dump({"property": "C16", "obligation": "C16/native#analytic-queries-within-time-limit",
+                       "concrete": violations[0]["concrete"], "detail": violations[0]["detail"],
+                       "replay": "build the type named in `concrete` with pydsdl's constructors and call the queries of "
+                                 "specs/c16._scaling_queries on it"}, open(rp, "w"), indent=1)
+            _native._Watchdog.HANG_VERDICT = (1, "VIOLATION property=C16 replay=%s obligation=C16/native#analytic-queries-"
+                                                 "within-time-limit" % rp)
+        except OSError:
+            pass
+    return {"check": "analytic queries on types with huge capacities finish within %d s (bounded, native, child process)" % limit,
             "types": checked, "slowest_s": round(slowest, 3), "violations": violations}
+
 
 import os as _os
 
